@@ -428,6 +428,37 @@ func init() {
 		"log.Printf": fmtNoop2, "log.Println": fmtNoop2, "log.Print": fmtNoop2,
 
 		// ---------------- math: bit casts of concrete floats (the real ones go through unsafe.Pointer)
+		// reflect: only what option.Of needs - the kind of a dynamic value and whether it is nil
+		"reflect.ValueOf": func(m *Machine, c *frame, fn *ssa.Function, a []Value) Value {
+			iv, ok := a[0].(IfaceV)
+			if !ok {
+				m.unsupported("reflect.ValueOf of a non-interface value")
+			}
+			return ReflV{iv}
+		},
+		"(reflect.Value).Kind": func(m *Machine, c *frame, fn *ssa.Function, a []Value) Value {
+			rv := a[0].(ReflV)
+			return m.S.Const(64, uint64(reflectKind(rv.I.T)))
+		},
+		"(reflect.Value).IsNil": func(m *Machine, c *frame, fn *ssa.Function, a []Value) Value {
+			rv := a[0].(ReflV)
+			switch v := rv.I.V.(type) {
+			case PtrV:
+				return m.S.Bool(v.Obj == nil)
+			case SliceV:
+				return m.S.Bool(v.Arr == nil)
+			case MapV:
+				return m.S.Bool(v.M == nil)
+			case FuncV:
+				return m.S.Bool(v.Fn == nil && v.B == nil && v.Native == nil)
+			case ChanV:
+				return m.S.Bool(v.C == nil)
+			case IfaceV:
+				return m.S.Bool(v.T == nil)
+			}
+			m.unsupported("reflect.Value.IsNil of a non-nillable kind")
+			return nil
+		},
 		"math.Float64bits": func(m *Machine, c *frame, fn *ssa.Function, a []Value) Value {
 			return m.S.Const(64, math.Float64bits(float64(a[0].(FloatV))))
 		},
@@ -780,4 +811,73 @@ func jsonUnmarshal(m *Machine, c *frame, fn *ssa.Function, a []Value) Value {
 	}
 	m.Store(p, m.havoc(et, "json.dec", 0))
 	return IfaceV{}
+}
+
+
+// ReflV models a reflect.Value obtained from reflect.ValueOf (kind and nil-ness only).
+type ReflV struct{ I IfaceV }
+
+// reflectKind returns the reflect.Kind constant of a type.
+func reflectKind(t types.Type) int {
+	if t == nil {
+		return 0 // Invalid
+	}
+	switch u := under(t).(type) {
+	case *types.Basic:
+		switch u.Kind() {
+		case types.Bool:
+			return 1
+		case types.Int:
+			return 2
+		case types.Int8:
+			return 3
+		case types.Int16:
+			return 4
+		case types.Int32:
+			return 5
+		case types.Int64:
+			return 6
+		case types.Uint:
+			return 7
+		case types.Uint8:
+			return 8
+		case types.Uint16:
+			return 9
+		case types.Uint32:
+			return 10
+		case types.Uint64:
+			return 11
+		case types.Uintptr:
+			return 12
+		case types.Float32:
+			return 13
+		case types.Float64:
+			return 14
+		case types.Complex64:
+			return 15
+		case types.Complex128:
+			return 16
+		case types.String:
+			return 24
+		case types.UnsafePointer:
+			return 26
+		}
+	case *types.Array:
+		return 17
+	case *types.Chan:
+		return 18
+	case *types.Signature:
+		return 19
+	case *types.Interface:
+		return 20
+	case *types.Map:
+		return 21
+	case *types.Pointer:
+		return 22
+	case *types.Slice:
+		return 23
+	case *types.Struct:
+		return 25
+	}
+	return 0
 }
